@@ -317,6 +317,38 @@ fn run_conv<T: TryFromJson<Error = ConvErr>>(v: &Value, cm: &CodeMap) -> Result<
 
 type M<T> = BTreeMap<String, T>;
 
+/// A user type converted from a JSON OBJECT (`TryFromJsonObject`): every value of the object converts to `T`.
+pub struct ObjVia<T>(std::marker::PhantomData<T>);
+impl<T: TryFromJson<Error = ConvErr>> json_syntax::TryFromJsonObject for ObjVia<T> {
+	type Error = ConvErr;
+	fn try_from_json_object_at(object: &json_syntax::Object, code_map: &CodeMap, offset: usize) -> Result<Self, ConvErr> {
+		for entry in object.iter_mapped(code_map, offset) {
+			T::try_from_json_at(entry.value.value.value, code_map, entry.value.value.offset)?;
+		}
+		Ok(ObjVia(std::marker::PhantomData))
+	}
+}
+
+/// the same conversion entered through the object traits: `try_from_json_object` on the root object (offset 0 is
+/// implied), directly and through `Box`, and `try_from_json_object_at` at the root
+fn convert_object(shape: &str, o: &json_syntax::Object, cm: &CodeMap) -> Option<Vec<Result<(), ConvErr>>> {
+	use json_syntax::TryFromJsonObject;
+	fn three<T: TryFromJson<Error = ConvErr>>(o: &json_syntax::Object, cm: &CodeMap) -> Vec<Result<(), ConvErr>> {
+		vec![
+			ObjVia::<T>::try_from_json_object(o, cm).map(|_| ()),
+			Box::<ObjVia<T>>::try_from_json_object(o, cm).map(|_| ()),
+			Box::<Box<ObjVia<T>>>::try_from_json_object_at(o, cm, 0).map(|_| ()),
+		]
+	}
+	Some(match shape {
+		"map(num)" => three::<LNum>(o, cm),
+		"map(vec(num))" => three::<Vec<LNum>>(o, cm),
+		"map(opt(vec(str)))" => three::<Option<Vec<LStr>>>(o, cm),
+		"map(map(unit))" => three::<M<LUnit>>(o, cm),
+		_ => return None,
+	})
+}
+
 /// dispatch on the textual form of the type shape
 fn convert(shape: &str, v: &Value, cm: &CodeMap) -> Option<Result<(), ConvErr>> {
 	Some(match shape {
@@ -382,6 +414,22 @@ pub fn replay_conv(rep: &mut Report, rec: &J) {
 	};
 	if exp != got.as_array().unwrap() {
 		rep.mismatch("C11.conv", json!({"what": "conversion does not report the kind mismatch at the offset of the offending fragment", "vector": rec, "type": shape, "observed": got}));
+	}
+	if let Value::Object(o) = &v {
+		if let Ok(Some(rs)) = guarded(|| convert_object(&shape, o, &cm)) {
+			for (how, r) in ["try_from_json_object", "Box::try_from_json_object", "Box<Box>::try_from_json_object_at(.., 0)"].iter().zip(rs) {
+				rep.count("conv_calls");
+				let got = match &r {
+					Ok(()) => json!([-1]),
+					Err(e) => json!([e.offset, e.found.map(kind_name), e.expected.map(|s| s.as_disjunction().to_string())]),
+				};
+				if exp != got.as_array().unwrap() {
+					rep.mismatch("C11.conv", json!({"what": format!("{how}: conversion from the root object does not report the kind mismatch at the offset of the offending fragment"), "vector": rec, "type": shape, "observed": got}));
+				}
+			}
+		} else if ["map(num)", "map(vec(num))", "map(opt(vec(str)))", "map(map(unit))"].contains(&shape.as_str()) {
+			rep.mismatch("C11.conv", json!({"what": "conversion from the root object panicked", "vector": rec, "type": shape}));
+		}
 	}
 	rep.note_distinct(hash_of(&(src, shape)));
 	let n = rep.counters["conv_vectors"];
